@@ -3332,8 +3332,12 @@ def auto_chunks(chunks, shape, limit, dtype, previous_chunks=None):
     limit = max(1, limit)
     chunksize_tolerance = config.get("array.chunk-size-tolerance")
 
+    # A zero-length dimension counts as length 1: the array holds no bytes then,
+    # and the remaining dimensions are chunked as for one slice of it
     largest_block = math.prod(
-        cs if isinstance(cs, Number) else max(cs) for cs in chunks if cs != "auto"
+        max(1, cs if isinstance(cs, Number) else max(cs))
+        for cs in chunks
+        if cs != "auto"
     )
 
     if previous_chunks:
